@@ -488,6 +488,7 @@ def run_shard(item):
         from props import c03
         r = ShardResult()
         c03.path_history(r, '.p8.png')
+        c03.edited_history(r, '.p8.png')
         for sig, v in r.violations.items():
             res.violation(sig.replace('C03|', 'C04|', 1), v[0], v[1])
         r.violations = {}
